@@ -100,6 +100,12 @@ def key_blob(k, form):
         return b"\x02" + _XGEP.to_bytes(32, "big")
     if form == "off":
         return b"\x04" + xb + ((y + 1) % P).to_bytes(32, "big")
+    if form == "xnop":
+        # well-formed compressed encoding (02/03, 33 bytes, x below the field prime) of an abscissa no curve point has
+        xx = x + 1
+        while pow((xx * xx * xx + 7) % P, (P - 1) // 2, P) == 1:
+            xx += 1
+        return bytes([2 + (y & 1)]) + xx.to_bytes(32, "big")
     if form == "p05":
         return b"\x05" + xb
     if form == "short":
